@@ -413,6 +413,21 @@ def analyze(traces, mo):
                                 scripted_faults=dict(fault_hist), events=dict(stats)))
 
 
+def bulk_probe(n):
+    """-> messages: one connection prepares n distinct statement texts twice; the cache keeps every one of them"""
+    try:
+        p = subprocess.run([BIN, 'bulk', str(n)], stdout=subprocess.PIPE, stderr=subprocess.PIPE, text=True, timeout=600)
+        d = json.loads(p.stdout.strip().splitlines()[-1])
+    except Exception as ex:
+        return ['bulk probe (%d distinct statements on one connection) did not complete: %s' % (n, str(ex)[-200:])]
+    want = dict(n=n, errors=0, parses_first=n, size_first=n, parses_second=0, size_second=n, size_cleared=0)
+    if d != want:
+        return ['%d distinct statements prepared twice on one connection: %s; expected %s (every first prepare goes to the '
+                'server, every repeat is served from the cache, size() counts the cached statements, clear() empties it)'
+                % (n, json.dumps(d, sort_keys=True), json.dumps(want, sort_keys=True))]
+    return []
+
+
 def run_engine(seed, tier):
     ok, out = cargo_build()
     if not ok or not os.path.exists(BIN):
@@ -436,6 +451,12 @@ def run_engine(seed, tier):
     res = analyze(traces, mo)
     res.update(ntraces=len(traces), ncorpus=0, key=key, seed=seed, tier=tier,
                timing=dict(gen_s=round(t1 - t0, 1), model_s=round(t2 - t1, 1), analyze_s=round(time.time() - t2, 1)))
+    # ---- the cache at scale (the random traces use a handful of keys): n distinct texts on one connection
+    nb = 6000 if tier == 'thorough' else 1100
+    msgs = bulk_probe(nb)
+    for m in msgs:
+        res['props']['C16']['monitor_fails'].append(dict(trace=-1, step=0, msg=m))
+    res.setdefault('histograms', {})['bulk_probe_statements'] = nb
     keep = set()
     for m in res['props']['C16']['mismatches'][:3] + res['props']['C16']['monitor_fails'][:3]:
         keep.add(m['trace'])
